@@ -29,6 +29,7 @@ func (s *session) handler() http.Handler {
 	batch := handlers.CreateBatchUploadHandler(s.dst)
 	return http.HandlerFunc(func(w http.ResponseWriter, req *http.Request) {
 		s.active.Add(1)
+		s.started.Add(1)
 		defer s.active.Add(-1)
 		defer func() {
 			if e := recover(); e != nil {
@@ -52,7 +53,15 @@ func (s *session) ensureServer() {
 	}
 }
 
-func (s *session) waitIdle() {
+// waitIdle returns once no handler is running.  started0 is the handler-start count taken before
+// the request was sent; failed says the client got no response, in which case the handler may not
+// even have begun yet and is given a moment to do so.
+func (s *session) waitIdle(started0 int64, failed bool) {
+	if failed {
+		for i := 0; i < 100 && s.started.Load() == started0; i++ {
+			time.Sleep(500 * time.Microsecond)
+		}
+	}
 	for i := 0; i < 3; i++ {
 		runtime.Gosched()
 	}
@@ -84,6 +93,11 @@ func (s *session) attempt(of *offer, transport string) {
 		transport = ""
 	} else if transport == "" {
 		transport = putTransports[s.rng.Intn(len(putTransports))]
+	}
+	if of.Mut == "read-error" && transport != "" && transport != "rec-cl" {
+		// a failing request body is handed to the handler directly: what the handler sees when a
+		// connection drops is exactly an error from Body.Read, and the outcome stays observable
+		transport = "rec-nocl"
 	}
 	s.mon.watch(of.Ref)
 	a := s.logAttempt(of, transport, "")
@@ -153,16 +167,16 @@ func (s *session) doPut(of *offer, transport string, out *outcome) {
 				req.Body = http.NoBody
 			}
 		}
+		st0 := s.started.Load()
 		resp, err := s.srv.Client().Do(req)
 		if err != nil {
 			out.terr = err
-			time.Sleep(time.Millisecond)
 		} else {
 			io.Copy(io.Discard, resp.Body)
 			resp.Body.Close()
 			out.status = resp.StatusCode
 		}
-		s.waitIdle()
+		s.waitIdle(st0, err != nil)
 	}
 	out.accepted = out.status/100 == 2
 }
@@ -189,6 +203,9 @@ func (s *session) batch(parts []*offer, primary int, transport string) {
 		transport = batchTransports[s.rng.Intn(len(batchTransports))]
 	}
 	pr := parts[primary]
+	if pr.Mut == "read-error" {
+		transport = "rec-nocl"
+	}
 	if pr.Reader == "" {
 		pr.Reader = readerKinds[s.rng.Intn(len(readerKinds))]
 	}
@@ -277,16 +294,16 @@ func (s *session) batch(parts []*offer, primary int, transport string) {
 				if transport == "srv-cl" {
 					req.ContentLength = int64(len(bodyBytes))
 				}
+				st0 := s.started.Load()
 				resp, err := s.srv.Client().Do(req)
 				if err != nil {
 					terr = err
-					time.Sleep(time.Millisecond)
 				} else {
 					respBody, _ = io.ReadAll(resp.Body)
 					resp.Body.Close()
 					status = resp.StatusCode
 				}
-				s.waitIdle()
+				s.waitIdle(st0, err != nil)
 			}
 		})
 	})
@@ -329,12 +346,15 @@ func (s *session) batch(parts []*offer, primary int, transport string) {
 			s.viol("listed-as-received/"+s.site(), "upload response lists %s as received, which is not a part name of the request", l)
 		}
 	}
-	hookTot1, _, _ := s.mon.totals()
-	s.r.Eval(1)
-	if hookTot1-hookTot0 != len(listed) {
-		s.viol("notified-on-reject/hook-total/"+s.site(), "one batch request: %d blobs listed as received, receive hook fired %d times", len(listed), hookTot1-hookTot0)
+	// No response at all (the connection broke under the client): the protocol text says the client
+	// must re-stat, i.e. parts carrying valid bytes may or may not have been saved.  Their fate is
+	// observed, not demanded; parts carrying bad bytes must still be absent.
+	noResp := status == 0
+	if noResp {
+		s.r.Note("observations", "batch-without-response")
 	}
 	anyRejected := false
+	nAccepted := 0
 	for i, p := range parts {
 		out := outcome{status: status, terr: terr, hub: true, panicked: panicked && i == primary}
 		if p.Ref.Valid() {
@@ -343,19 +363,35 @@ func (s *session) batch(parts []*offer, primary int, transport string) {
 				out.sb = blob.SizedRef{Ref: p.Ref, Size: uint32(size)}
 			}
 		}
-		if !out.accepted {
+		w := wants[i]
+		if noResp && p.Want == wantAccept {
+			w = wantEither
+			if f := fetchFrom(s.b.S, p.Ref); f.present && bytes.Equal(f.data, p.Data) {
+				out.accepted = true
+			}
+		}
+		if out.accepted {
+			nAccepted++
+		} else {
 			out.status = 0
 			out.terr = nil
 			anyRejected = true
 		}
 		saved := p.Want
-		p.Want = wants[i]
+		p.Want = w
+		recs[i].Want = w.String()
 		s.judge(p, out, hb[i], recs[i])
 		p.Want = saved
 		// bytes sent under an unparseable name: their real ref must not have appeared either
 		if !p.Ref.Valid() && p.TrueRef != "" {
 			s.checkTrueRefAbsent(p)
 		}
+	}
+	hookTot1, _, _ := s.mon.totals()
+	s.r.Eval(1)
+	if hookTot1-hookTot0 != nAccepted {
+		s.viol("notified-on-reject/hook-total/"+s.site(), "one batch request: %d blobs accepted (listed as received%s), receive hook fired %d times", nAccepted,
+			map[bool]string{true: " or, lacking a response, found stored", false: ""}[noResp], hookTot1-hookTot0)
 	}
 	s.checkEnumeration("enumerate", s.b.S, anyRejected)
 	s.checkListenersNoExcess()
